@@ -79,7 +79,7 @@ def main():
     cat = os.path.join(VERIF, "checker", "variants", prop + ".json")
     variants = json.load(open(cat)) if os.path.exists(cat) else []
     if only:
-        variants = [v for v in variants if v["name"] == only]
+        variants = [v for v in variants if v["name"] in only.split(",")]
     results = []
     with concurrent.futures.ThreadPoolExecutor(max_workers=jobs) as ex:
         for r in ex.map(lambda v: run_variant(prop, v, "--keep" in args), variants):
